@@ -9,7 +9,8 @@ Open Scope Qc_scope.
 
 (* a CQM: its objective and its labelled constraint left-hand sides (what a model handed to
    add_constraint / set_objective becomes part of) *)
-Inductive obj := OModel (p : poly) | OSet (s : sset) | OCqm (objective : poly) (cons : list (nat * poly)).
+Inductive obj := OModel (p : poly) | OSet (s : sset) | OCqm (objective : poly) (cons : list (nat * poly))
+               | OVars (ls : list label).        (* a dimod.variables.Variables object *)
 Definition heap := list obj.
 
 (* copy-producing calls *)
@@ -27,7 +28,8 @@ Inductive cop :=
 | CSet (o : op)                          (* SampleSet: relabel_variables / change_vartype (inplace=False), slice, truncate,
                                             lowest, filter, aggregate, keep/drop/append_variables, append_data_vectors,
                                             concatenate with given sample sets, copy *)
-| CConcat (others : list nat).           (* dimod.concatenate([a] + other live sample sets) *)
+| CConcat (others : list nat)            (* dimod.concatenate([a] + other live sample sets) *)
+| CGiven (result : obj).                 (* a copy-producing call whose result function is not modelled here: the result is given *)
 
 (* in-place calls *)
 Inductive iop :=
@@ -58,6 +60,7 @@ Fixpoint sets_of (h : heap) (is_ : list nat) : option (list sset) :=
 Definition apply_cop (K : lkeys) (h : heap) (c : cop) (o : obj) : option obj :=
   match c, o with
   | CCopy, _ => Some o
+  | CGiven x, _ => Some x
   | CRelabel f, OModel p => Some (OModel (relabel f p))
   | CSpinToBinary vs, OModel p => Some (OModel (s2b vs p))
   | CBinaryToSpin vs, OModel p => Some (OModel (b2s vs p))
